@@ -103,8 +103,7 @@ class Rig:
     def __init__(self):
         import curtsies.input as ci
         self.ci = ci
-        self._orig = ci.getpreferredencoding
-        ci.getpreferredencoding = lambda: "utf-8"
+        self._pin = plumbing.PinnedEncoding("utf-8")
         self.pty = plumbing.Pty(transparent=True)
         self.facts = Facts("utf-8")
         if _CLS[0] is None:
@@ -117,7 +116,7 @@ class Rig:
                            and not self.facts.T_prefix(t))
 
     def close(self):
-        self.ci.getpreferredencoding = self._orig
+        self._pin.restore()
         self.pty.close()
 
 
@@ -313,11 +312,8 @@ def run_seq(ctx, case):
                 elif k == "sigint":
                     if case["sigint_event"]:
                         # a SIGINT between two requests (the handler runs before the next statement)
-                        os.kill(os.getpid(), signal.SIGINT)
-                        for _ in range(200):
-                            if len(inp.sigints) > D.sigints:
-                                break
-                            time.sleep(0.0005)
+                        os.kill(os.getpid(), signal.SIGINT)      # the handler runs before the next statement
+                        time.sleep(0.001)
                         hist.append({"k": "sigint", "t": time.monotonic()})
                         D.sigints += 1
                 elif k == "req":
